@@ -89,6 +89,11 @@ func VerifC15Drop() {
 		rt.Check(db3.Open() == nil, "reopening a dropped database succeeds")
 		rt.Check(db3.Pos() == pos1, "C05: position after restart is the tombstone's")
 		rt.Check(db3.PageN() == 0, "dropped database has no pages after restart")
+		// a replica that joins now must be told about the drop: the restarted node can still produce the
+		// (empty) snapshot of the dropped database
+		var sb bytes.Buffer
+		hdr, _, serr := db3.WriteSnapshotTo(ctx, &sb)
+		rt.Check(serr == nil && hdr.Commit == 0 && hdr.MaxTXID == pos1.TXID, "a node restarted after the drop can still serve the dropped database's snapshot to a late joiner")
 		rt.Reach("c15.reopened")
 	}
 }
